@@ -185,9 +185,14 @@ def ablate_annotations(model, X, annotations, **kwargs):
 
 	y_befores, y_afters = [], []
 
+	# Additional model arguments have to be sliced to the example that each
+	# annotation refers to, just like X.
+	args = kwargs.pop('args', None)
+
 	for idx, start, end in annotations:
+		args_ = None if args is None else tuple(a[idx:idx+1] for a in args)
 		y_before, y_after = ablate(model, X[idx:idx+1], start=start, end=end, 
-			**kwargs)
+			args=args_, **kwargs)
 
 		y_befores.append(y_before)
 		y_afters.append(y_after)
